@@ -38,7 +38,7 @@ Sy(case, sep, com, place) == [case |-> case, sep |-> sep, com |-> com, place |->
 
 IsInstr(s) == s.k \in {"i0", "i1n", "i1l", "i1r", "i1c"}
 \* joining: an instruction may share a line with the previous instruction, and any statement with a previous label
-IsPre(s) == s.k \in {"cif", "def", "ifd"}            \* preprocessor statements always start a line
+IsPre(s) == s.k \in {"cif", "def", "ifd", "cel"}            \* preprocessor statements always start a line
 CanJoin(prev, s) == ~IsPre(s) /\ ((prev.k = "lab" /\ s.k # "lab") \/ (IsInstr(prev) /\ IsInstr(s)))
 
 \* items: [t, a, b]
@@ -50,6 +50,15 @@ StmtItems(s, y, j) ==
                           It("BL", y.sep, ""), It("WORD", IF s.n = "eq" THEN "fast" ELSE "slow", ""), NLI>>
                         \o ByteLine(y, It("NUM", "", s.v), It("NUM", "", s.v)) \o <<NLI, It("DIR", "#else", ""), NLI>>
                         \o ByteLine(y, It("NUM", "", s.w), It("NUM", "", s.w)) \o <<NLI, It("DIR", "#endif", "")>>
+      \* cel: #if MODE == slow / .byte v, v / #elif MODE == fast / .byte w, w / #else / .byte 0, 0 / #endif  (the #elif is reached while
+      \* its chain has not selected a branch yet: it is the #elif branch that is selected)
+      [] s.k = "cel" -> <<It("DIR", "#if", ""), It("BL", y.sep, ""), It("SYM", "MODE", ""), It("BL", y.sep, ""), It("OP", "==", ""),
+                          It("BL", y.sep, ""), It("WORD", "slow", ""), NLI>>
+                        \o ByteLine(y, It("NUM", "", s.v), It("NUM", "", s.v))
+                        \o <<NLI, It("DIR", "#elif", ""), It("BL", y.sep, ""), It("SYM", "MODE", ""), It("BL", y.sep, ""), It("OP", "==", ""),
+                             It("BL", y.sep, ""), It("WORD", "fast", ""), NLI>>
+                        \o ByteLine(y, It("NUM", "", s.w), It("NUM", "", s.w)) \o <<NLI, It("DIR", "#else", ""), NLI>>
+                        \o ByteLine(y, It("NUM", "", 0), It("NUM", "", 0)) \o <<NLI, It("DIR", "#endif", "")>>
       [] s.k = "def" -> <<It("DIR", "#define", ""), It("BL", y.sep, ""), It("DSYM", "", j), It("BL", y.sep, ""), It("NUM", "", s.v), NLI>>
                         \o ByteLine(y, It("DSYM", "", j), It("DSYM", "", j))
       [] s.k = "ifd" -> <<It("DIR", "#ifdef", ""), It("BL", y.sep, ""), It("SYM", "MODE", ""), NLI>>
@@ -108,6 +117,9 @@ NormStmts(s, j) ==              \* the tokenizer's statements for one abstract s
       [] s.k = "cif" -> << <<<<"DIR", "#if">>, <<"SYM", "MODE">>, <<"OP", "==">>, <<"WORD", IF s.n = "eq" THEN "fast" ELSE "slow">>>>,
                            NormByte(<<"NUM", s.v>>, <<"NUM", s.v>>), <<<<"DIR", "#else">>>>, NormByte(<<"NUM", s.w>>, <<"NUM", s.w>>),
                            <<<<"DIR", "#endif">>>> >>
+      [] s.k = "cel" -> << <<<<"DIR", "#if">>, <<"SYM", "MODE">>, <<"OP", "==">>, <<"WORD", "slow">>>>, NormByte(<<"NUM", s.v>>, <<"NUM", s.v>>),
+                           <<<<"DIR", "#elif">>, <<"SYM", "MODE">>, <<"OP", "==">>, <<"WORD", "fast">>>>, NormByte(<<"NUM", s.w>>, <<"NUM", s.w>>),
+                           <<<<"DIR", "#else">>>>, NormByte(<<"NUM", 0>>, <<"NUM", 0>>), <<<<"DIR", "#endif">>>> >>
       [] s.k = "def" -> << <<<<"DIR", "#define">>, <<"DSYM", j>>, <<"NUM", s.v>>>>, NormByte(<<"DSYM", j>>, <<"DSYM", j>>) >>
       [] s.k = "ifd" -> << <<<<"DIR", "#ifdef">>, <<"SYM", "MODE">>>>, NormByte(<<"NUM", s.v>>, <<"NUM", s.v>>), <<<<"DIR", "#endif">>>> >>
       [] OTHER       -> << NormByte(<<"NUM", s.v>>, <<"NUM", s.w>>) >>
@@ -128,6 +140,7 @@ StmtBytes(p, s) ==
       [] s.k = "strg" -> <<103, 108, 111, 98, 49, 58, 32, 98, 0>>
       [] s.k = "cif" -> IF s.n = "eq" THEN <<s.v, s.v>> ELSE <<s.w, s.w>>     \* MODE is fast: the texts are compared
       [] s.k \in {"def", "ifd"} -> <<s.v, s.v>>
+      [] s.k = "cel" -> <<s.w, s.w>>
       [] OTHER -> <<s.v, s.w>>
 \* the local label l1 lives in the region opened by the global label g1: g1 has to come before its definition and uses
 LocalOk(p) == \A j \in 1..Len(p) : (p[j].n = "l1" /\ p[j].k \in {"lab", "i1l"}) =>
